@@ -252,7 +252,7 @@ def follower_loads(vk, cfg):
         vk.ensures_eq("pressure-keyword/vector*p==vector(p)*p2", rk * p1, r * p2)
 
 
-@contract("C01", "constraints_and_loads", configs=[dict(item=i) for i in ("mpc", "mpc-skip", "contact-closed", "contact-open", "pointload", "pointload-axi", "bodyforce", "gravity")])
+@contract("C01", "constraints_and_loads", configs=[dict(item=i) for i in ("mpc", "mpc-skip", "mpc-center-in-points", "contact-closed", "contact-open", "contact-zero-initial-gap", "pointload", "pointload-axi", "bodyforce", "gravity")])
 def constraints_and_loads(vk, cfg):
     item_kind = cfg["item"]
     dim = 3 if item_kind.startswith(("mpc", "contact")) else 2
@@ -260,7 +260,7 @@ def constraints_and_loads(vk, cfg):
     rg = OpaqueRegion(vk, cells, dim, NQ)
     npts = rg.mesh.npoints
     unear = np.zeros((npts, dim))
-    if item_kind == "contact-closed":
+    if item_kind in ("contact-closed", "contact-zero-initial-gap"):
         unear[[0, 2]] = 3.0  # only steers the sampling into the closed sign pattern
     u = vk.reals("u", (npts, dim), near=unear, spread=0.05)
     if item_kind == "pointload-axi":
@@ -270,7 +270,7 @@ def constraints_and_loads(vk, cfg):
     fc = fem.FieldContainer([f])
     symmetric = True
     if item_kind.startswith("mpc"):
-        item = fem.MultiPointConstraint(fc, points=[0, 2, 3], centerpoint=4, skip=(False, True, False) if item_kind == "mpc-skip" else (False, False, False), multiplier=vk.real_scalar("k", near=10.0))
+        item = fem.MultiPointConstraint(fc, points=[0, 2, 4] if item_kind == "mpc-center-in-points" else [0, 2, 3], centerpoint=4, skip=(False, True, False) if item_kind == "mpc-skip" else (False, False, False), multiplier=vk.real_scalar("k", near=10.0))
         vk.real(fem.MultiPointConstraint._vector)
         vk.real(fem.MultiPointConstraint._matrix)
     elif item_kind.startswith("contact"):
@@ -278,19 +278,26 @@ def constraints_and_loads(vk, cfg):
         X = rg.mesh.points
         pts, c = [0, 2], 4
         closed = item_kind == "contact-closed"
+        if item_kind == "contact-zero-initial-gap":
+            # the rigid plane touches the points initially on axis 0 (gap exactly zero, an admissible state away
+            # from the switching point as soon as the current gap is non-zero); other axes closed
+            closed = True
+            for p_ in pts:
+                X[p_, 0] = X[c, 0]
         if vk.sym:
             for p_ in pts:
                 for ax in range(dim):
                     gap0 = co(X[c, ax]) - co(X[p_, ax])
                     gap = gap0 + u[c, ax] - u[p_, ax]
-                    oracle.assume(gap0, ">")
+                    if gap0.t:
+                        oracle.assume(gap0, ">")
                     oracle.assume(gap, "<" if closed else ">")
         else:
             for p_ in pts:
                 for ax in range(dim):
                     gap0 = X[c, ax] - X[p_, ax]
                     gap = gap0 + u[c, ax] - u[p_, ax]
-                    if gap0 <= 0 or (gap < 0) != closed:
+                    if gap0 < 0 or (gap0 == 0 and item_kind != "contact-zero-initial-gap") or (gap < 0) != closed:
                         raise Skip("sign pattern")
         item = fem.MultiPointContact(fc, points=pts, centerpoint=c, multiplier=vk.real_scalar("k", near=10.0))
         vk.real(fem.MultiPointContact._vector)
